@@ -1109,31 +1109,37 @@ def replay(cex):
                                                   'as specified'))
     if kind == 'merge':
         nz = cex['nz']
-        runs = cex.get('runs') or [[k, k+1] for k in range(nz)]
-        grid = emg3d.TensorMesh([np.array([1., 2.]), np.array([1.]),
-                                 rng.uniform(1, 3, nz)], (0, 0, 0))
-        vx, vz = np.zeros(nz), np.zeros(nz)
-        for r, (a_, b_) in enumerate(runs):
-            vx[a_:b_] = 1.0+r          # horizontal: differs between runs
-            vz[a_:b_] = 2.0            # vertical: equal everywhere
+        vti = cex['aniso'] == 'VTI'
         msgs = []
-        for kwz in ([dict()] if cex['aniso'] != 'VTI' else
-                    [dict(property_z=np.ones((2, 1, nz))*vz),
-                     dict(property_z=np.ones((2, 1, nz))*(vx+5))]):
+        for trial in range(40):
+            grid = emg3d.TensorMesh([np.array([1., 2.]), np.array([1.]),
+                                     rng.uniform(1, 3, nz)], (0, 0, 0))
+            vx = np.cumsum(rng.integers(0, 2, nz))+1.0
+            vz = np.cumsum(rng.integers(0, 2, nz))+1.0 if vti else None
+            kwz = dict(property_z=np.ones((2, 1, nz))*vz) if vti else {}
             m = emg3d.Model(grid, property_x=np.ones((2, 1, nz))*vx,
                             mapping='Resistivity', **kwz)
             o = m.extract_1d('midpoint', (0.5, 0.5), merge=True)
-            if o.shape[2] != len(runs):
-                msgs.append(f"{o.shape[2]} merged layers, expected "
-                            f"{len(runs)} (vertical property "
-                            f"{'constant' if kwz and kwz['property_z'].std() == 0 else 'varying'})")
+            # specification: a new layer starts where ANY property changes
+            starts = [0]+[k for k in range(1, nz) if vx[k] != vx[k-1] or (
+                vti and vz[k] != vz[k-1])]
+            ends = starts[1:]+[nz]
+            if o.shape[2] != len(starts):
+                msgs.append(f"rho_h={vx.tolist()}"
+                            f"{', rho_v='+str(vz.tolist()) if vti else ''}: "
+                            f"{o.shape[2]} merged layers, expected "
+                            f"{len(starts)}")
                 continue
-            for r, (a_, b_) in enumerate(runs):
-                if o.property_x[0, 0, r] != vx[a_] or not np.isclose(
-                        o.grid.h[2][r], grid.h[2][a_:b_].sum()):
-                    msgs.append(f"merged layer {r} wrong")
-        return bool(msgs), ("real extract_1d(merge=True): " +
-                            ('; '.join(msgs[:3]) or 'as specified'))
+            for r, (a_, b_) in enumerate(zip(starts, ends)):
+                if o.property_x[0, 0, r] != vx[a_] or (
+                        vti and o.property_z[0, 0, r] != vz[a_]) or \
+                        not np.isclose(o.grid.h[2][r],
+                                       grid.h[2][a_:b_].sum()):
+                    msgs.append(f"merged layer {r} wrong for rho_h="
+                                f"{vx.tolist()}")
+        return bool(msgs), ("real extract_1d(merge=True) on 40 random "
+                            "layerings: " + ('; '.join(msgs[:2]) or
+                                             'as specified'))
     if kind == 'layered':
         return replay_layered(cex)
     return False, 'unknown kind'
